@@ -20,6 +20,7 @@ void sim_keep(const void *p, const char *kind);     /* library-owned memory is e
 void sim_obj_born(int id, const void *p);
 void sim_obj_died(int id);
 void sim_obj_value(int id, int value);
+long sim_wrapper_live(void);          /* wrapper-phase heap blocks alive now (excl. subject objects) */
 void sim_final(void);                /* prints FINAL summary */
 #ifdef __cplusplus
 }
